@@ -420,7 +420,10 @@ func wnGen(prop string) func(rng *rand.Rand, tier string) *gosim.Plan {
 		p := &gosim.Plan{Params: map[string]int64{}}
 		nfiles := 2 + rng.Intn(3)
 		alpha := int64(3 + rng.Intn(4)) // chunk alphabet size: small => shared chunks
-		hot := prop == "C16" && rng.Intn(3) > 0 // C16: a family of files around one hot chunk
+		// a family of files around one hot chunk (shared between files and
+		// repeated inside files): always for two thirds of the C16 runs, for one
+		// third of the C12 / C17 runs
+		hot := (prop == "C16" && rng.Intn(3) > 0) || ((prop == "C12" || prop == "C17") && rng.Intn(3) == 0)
 		if hot {
 			nfiles = 3 + rng.Intn(3)
 		}
@@ -461,14 +464,25 @@ func wnGen(prop string) func(rng *rand.Rand, tier string) *gosim.Plan {
 			// the oracle runs after every deletion
 			p.Params["capacity"] = 100
 			for f := 0; f < nfiles; f++ {
-				if rng.Intn(4) == 0 {
+				switch {
+				case rng.Intn(4) == 0 || (prop != "C16" && rng.Intn(2) == 0):
 					p.Ops = append(p.Ops, gosim.Op{K: "cache", A: []int64{0, int64(f)}})
-				} else {
+				case prop == "C12" && rng.Intn(2) == 0:
+					p.Ops = append(p.Ops, gosim.Op{K: "upload", A: []int64{0, int64(f), 1}}) // pinned upload
+				default:
 					p.Ops = append(p.Ops, gosim.Op{K: "upload", A: []int64{0, int64(f), 0}})
 				}
 			}
+			if prop == "C12" {
+				p.Params["capacity"] = gosim.Pick(rng, 8, 12, 20)
+			}
 			p.Ops = append(p.Ops, gosim.Op{K: "barrier"})
 			for _, f := range rng.Perm(nfiles)[:nfiles-1] {
+				if prop == "C12" && rng.Intn(2) == 0 {
+					// eviction instead of deletion: download something else, collect
+					p.Ops = append(p.Ops, gosim.Op{K: "gc", A: []int64{0}}, gosim.Op{K: "barrier"})
+					continue
+				}
 				p.Ops = append(p.Ops, gosim.Op{K: "delete", A: []int64{0, int64(f)}}, gosim.Op{K: "barrier"})
 			}
 			return p
